@@ -525,6 +525,26 @@ pub fn expand(op: &str) -> Vec<String> {
                 }
             }
         }
+        // obs-carrying ops: re-issue the op with the CURRENT implementation's observation (used by
+        // `check --replay`, so that a stale embedded observation does not outlive a fix)
+        ["C17", kind, rest @ ..] => {
+            let nargs = match *kind {
+                "pa126" => 3,
+                "pa127" => 3,
+                "symb126" => 1,
+                "symb127" => 3,
+                "rxsym" => 3,
+                "pkt126" => 3,
+                "rssi126" => 1,
+                "pkt127" => 4,
+                "rssi127" => 3,
+                _ => 0,
+            };
+            if nargs > 0 && rest.len() >= nargs {
+                let base = format!("C17 {} {}", kind, rest[..nargs].join(" "));
+                out.push(with_obs(base).0);
+            }
+        }
         _ => {}
     }
     out
